@@ -672,8 +672,11 @@ func genImageFamily(r *core.Rand, emit func(class string, line string)) {
 // genLru: more block files than read handles are kept open (maxOpenFiles = 25):
 // one block per file, every file read, early ones read again; also with the
 // n-th read-only open failing.
-func genLru(r *core.Rand, emit func(class string, line string)) {
-	nfiles := int(r.Pick(24, 25, 26, 27, 30))
+func genLru(r *core.Rand, big bool, emit func(class string, line string)) {
+	nfiles := int(r.Pick(24, 25, 26))
+	if big {
+		nfiles = int(r.Pick(27, 30))
+	}
 	var ops []string
 	ops = append(ops, "bw:w")
 	for i := 1; i <= nfiles+1; i++ {
@@ -687,13 +690,15 @@ func genLru(r *core.Rand, emit func(class string, line string)) {
 			reads = append(reads, fmt.Sprintf("fk:r:%d", 1+r.Intn(i)))
 		}
 	}
-	for k := 0; k < 6; k++ {
+	for k := 0; k < 10; k++ {
 		reads = append(reads, fmt.Sprintf("fr:r:%d:1:3", 1+r.Intn(nfiles)))
 	}
+	// oldest and newest handles again, in both orders
+	reads = append(reads, "fk:r:1", fmt.Sprintf("fk:r:%d", nfiles), "fk:r:2", fmt.Sprintf("fk:r:%d", nfiles-1), "fk:r:1")
 	reads = append(reads, "rb:r")
 	tail := []string{"bw:w", fmt.Sprintf("pr:w:%d", 60*int(r.Range(1, 20))), "co:w", "br:r", "fk:r:1",
 		fmt.Sprintf("fk:r:%d", nfiles), fmt.Sprintf("fk:r:%d", nfiles+1), "rb:r", "da"}
-	for _, n := range []int{0, 1, 25, 26, 27} {
+	for _, n := range []int{0, 1, 25, 26, 27, 29, 33} {
 		all := append([]string{}, ops...)
 		if n > 0 {
 			all = append(all, fmt.Sprintf("ft:open:%d", n))
@@ -716,4 +721,24 @@ func genFlushBoundary(r *core.Rand, emit func(class string, line string)) {
 			"bw:w", "p:w:.:7a7a:01", "co:w", "cp", "da", "bw:w", "p:w:.:7a7b:02", "co:w", "cps", "da"}
 		emit("flush-boundary", fmt.Sprintf("C05 db 1000 %d %s", mc, strings.Join(ops, " ")))
 	}
+}
+
+// genParBlocks: several instances append many blocks of different lengths at
+// the same time (one commit per block) and read everything back.
+func genParBlocks(r *core.Rand) string {
+	var subs []string
+	for i := 0; i < 8; i++ {
+		var ops []string
+		n := 40 + r.Intn(20)
+		for b := 1; b <= n; b++ {
+			ops = append(ops, "bw:w", fmt.Sprintf("sb:w:%d:%d", b, 1+(b*37+i*11)%200), "co:w")
+		}
+		ops = append(ops, "br:r")
+		for b := 1; b <= n; b += 1 + r.Intn(3) {
+			ops = append(ops, fmt.Sprintf("hb:r:%d", b))
+		}
+		ops = append(ops, "rb:r", "da", "wc")
+		subs = append(subs, fmt.Sprintf("db %d 100000000 %s", int(r.Pick(300, 1000, 1000000)), strings.Join(ops, " ")))
+	}
+	return "C05 par " + strings.Join(subs, " // ")
 }
